@@ -1408,7 +1408,8 @@ def unit_c12(repo):
     n0 = len(ex.defs)
     cmod = PyModule(Path(repo) / 'sc3' / 'base' / 'clock.py', aliases={'bi': bmod})
     ex.assumptions = dict(C12_ASSUME)
-    ex.skip_calls = {'mdl.NotificationCenter.notify'}
+    ex.skip_calls = {'mdl.NotificationCenter.notify',          # observers: no effect on the numeric state
+                     '_libsc3.main._clock_scheduler.retime'}    # NRT: pending tasks keep their beat
     ex.state = C12_STATE
     infos = {}
     for name, kind, sigs in C12_FUNCS:
